@@ -109,7 +109,7 @@ def outcome_str(o):
             return "skip"
         if str(last).startswith("res:"):
             return last
-        if last == "exc:CancelledError":
+        if last == "cancelled":
             return "cancelled"
         return "exc"
     if k in ("shutdown", "exit"):
@@ -153,3 +153,209 @@ def compare(case, res, coq_out):
     if len(il) != len(ml):
         return {"kind": "length", "impl": len(il), "model": len(ml), "impl_tail": il[-2:], "model_tail": ml[-2:]}
     return None
+
+
+# ------------------------------------------------------------------ step executor
+def eff_slots(case, i):
+    ek = case.get("executor_kwargs", {})
+    ecores = ek.get("cores", 1)
+    res = case["calls"][i - 1].get("res") or {}
+    cores = res.get("cores")
+    if cores is None or (cores == 1 and ecores >= 1):
+        cores = ecores
+    return cores * res.get("threads_per_core", 1)
+
+
+def gen_step_case(rng, max_calls=4, allow_fail=True):
+    ncalls = rng.randint(0, max_calls)
+    use_cores = rng.random() < 0.7
+    limit = rng.choice([1, 2, 2, 3, 4])
+    calls = []
+    for _ in range(ncalls):
+        c = {"raises": allow_fail and rng.random() < 0.12}
+        if use_cores and rng.random() < 0.5:
+            cores = rng.randint(1, limit)
+            tpc = rng.choice([1, 1, 2]) if cores * 2 <= limit else 1
+            c["res"] = {"cores": cores}
+            if tpc > 1:
+                c["res"]["threads_per_core"] = tpc
+        else:
+            c["res"] = {}
+        calls.append(c)
+    case = {"mode": "step", "calls": calls, "executor_kwargs": {}}
+    if use_cores:
+        case["max_cores"] = limit
+    else:
+        case["max_workers"] = limit
+    blk = gen_block_case(rng, max_calls=ncalls, allow_fail=False)
+    # reuse the op generator but on our calls
+    ops, pending, submitted, nshut = [], list(range(1, ncalls + 1)), [], 0
+    while True:
+        r = rng.random()
+        if pending and r < 0.55:
+            i = pending.pop(0)
+            ops.append(["submit", i])
+            submitted.append(i)
+        elif submitted and r < 0.63:
+            ops.append(["cancel", rng.choice(submitted)])
+        elif submitted and r < 0.73:
+            ops.append(["result", rng.choice(submitted)])
+        elif r < 0.85 and nshut < 2:
+            ops.append(["exit"] if rng.random() < 0.2 else ["shutdown", rng.random() < 0.6, rng.random() < 0.4])
+            nshut += 1
+        elif not pending or rng.random() < 0.2:
+            break
+        if len(ops) > 12:
+            break
+    case["ops"] = ops
+    return case
+
+
+def coq_expr_x(case, res):
+    rs = [i + 1 for i, c in enumerate(case["calls"]) if c.get("raises")]
+    slots = [eff_slots(case, i + 1) for i in range(len(case["calls"]))]
+    picks = [tid_coq_x(t[1]) for t in res["trace"]]
+    enc = lambda v: 0 if v is None else v + 1  # noqa
+    return "(xreplay_case [%s] [%s] %d %d %d [%s] [%s])%%nat" % (
+        "; ".join(str(r) for r in rs), "; ".join(str(x) for x in slots), enc(case.get("max_cores")),
+        enc(case.get("max_workers")), len(case["calls"]), "; ".join(op_coq(o) for o in case["ops"]), "; ".join(picks))
+
+
+def tid_coq_x(name):
+    if name in ("M", "D", "R"):
+        return "T" + name
+    return "(TW %s)" % name[1:] if name[0] == "W" else "(TP %s)" % name[1:]
+
+
+def slot_usage(case, res):
+    """implementation-side measure: slots requested by the calls whose body is executing, after every step"""
+    executing = {}
+    out = []
+    for en, pick, lab in res["trace"]:
+        if lab[0] == "zrecv" and str(lab[1]).startswith("C") and str(lab[2]).startswith("call"):
+            executing[lab[1]] = int(str(lab[2])[4:])
+        elif lab[0] == "zsend" and str(lab[1]).startswith("C") and lab[1] in executing:
+            del executing[lab[1]]
+        out.append(sum(eff_slots(case, i) for i in executing.values()))
+    return out
+
+
+def impl_lines_x(case, res):
+    use = slot_usage(case, res)
+    lines = ["%s|%s|%s|%d" % (",".join(en), pick, " ".join(str(x) for x in lab), u)
+             for (en, pick, lab), u in zip(res["trace"], use)]
+    nf = len(case["calls"])
+    futs = [res["futures"].get(str(i), "pending") for i in range(1, nf + 1)]
+    outs = [x for x in (outcome_str(o) for o in res["outcomes"]) if x is not None]
+    ents = res["ents"]
+    wnames = sorted([n for n in ents if n[0] == "W"], key=lambda n: int(n[1:]))
+    ws = []
+    for n in wnames:
+        st, exc = ents[n]
+        ws.append("live" if st not in ("done", "killed") else ("dead" if exc else "done"))
+    pnames = sorted(res["procs"], key=lambda n: int(n[1:]))
+    ps = ["alive" if res["procs"][n]["alive"] else "exited" for n in pnames]
+    q = ["%d:%s" % (x["unf"], ".".join(x["items"])) for x in res["queues"]]
+    if "D" in ents:
+        st, exc = ents["D"]
+        disp = "live" if st not in ("done", "killed") else ("dead" if exc else "done")
+    else:
+        disp = "none"
+    lines.append("F|en=|futs=%s|outs=%s|main=%s|disp=%s|ws=%s|ps=%s|q=%s" % (
+        ",".join(futs), ",".join(outs), "end" if ents["M"][0] == "done" else "live", disp,
+        ",".join(ws), ",".join(ps), ",".join(q)))
+    return lines
+
+
+def compare_lines(il, coq_out):
+    ml = coq_out.split(";")
+    for k, (a, b) in enumerate(zip(il, ml)):
+        if a != b:
+            return {"kind": "diverge", "step": k, "impl": a, "model": b, "prefix": il[max(0, k - 6):k]}
+    if len(il) != len(ml):
+        return {"kind": "length", "impl": len(il), "model": len(ml), "impl_tail": il[-2:], "model_tail": ml[-2:]}
+    return None
+
+
+# ------------------------------------------------------------------ resolver in front of block / step
+def gen_dep_case(rng, max_calls=4, allow_fail=True):
+    inner_block = rng.random() < 0.5
+    ncalls = rng.randint(0, max_calls)
+    calls = []
+    for i in range(1, ncalls + 1):
+        c = {"raises": allow_fail and rng.random() < 0.12}
+        if i > 1 and rng.random() < 0.55:
+            k = rng.choice([1, 1, 2])
+            c["deps"] = [rng.randint(1, i - 1) for _ in range(k)]
+            if rng.random() < 0.3:
+                c["nest"] = True
+        if not inner_block:
+            c["res"] = {}
+        calls.append(c)
+    case = {"calls": calls}
+    if inner_block:
+        case["mode"] = "dep-block"
+        case["max_workers"] = rng.choice([1, 1, 2])
+    else:
+        case["mode"] = "dep-step"
+        if rng.random() < 0.6:
+            case["max_cores"] = rng.choice([1, 2, 3])
+        else:
+            case["max_workers"] = rng.choice([1, 2])
+    ops, pending, submitted, nshut = [], list(range(1, ncalls + 1)), [], 0
+    while True:
+        r = rng.random()
+        if pending and r < 0.55:
+            i = pending.pop(0)
+            ops.append(["submit", i])
+            submitted.append(i)
+        elif submitted and r < 0.63:
+            ops.append(["cancel", rng.choice(submitted)])
+        elif submitted and r < 0.73:
+            ops.append(["result", rng.choice(submitted)])
+        elif r < 0.85 and nshut < 2:
+            ops.append(["exit"] if rng.random() < 0.2 else ["shutdown", rng.random() < 0.6, rng.random() < 0.4])
+            nshut += 1
+        elif not pending or rng.random() < 0.2:
+            break
+        if len(ops) > 12:
+            break
+    case["ops"] = ops
+    return case
+
+
+def coq_expr_d(case, res):
+    rs = [i + 1 for i, c in enumerate(case["calls"]) if c.get("raises")]
+    slots = [1 for _ in case["calls"]]
+    deps = ["[%s]" % "; ".join(str(d) for d in c.get("deps", [])) for c in case["calls"]]
+    picks = [tid_coq_x(t[1]) for t in res["trace"]]
+    enc = lambda v: 0 if v is None else v + 1  # noqa
+    inner = 0 if case["mode"] == "dep-step" else case["max_workers"] + 1
+    mc, mw = (case.get("max_cores"), case.get("max_workers")) if case["mode"] == "dep-step" else (None, None)
+    return "(dreplay_case %d [%s] [%s] [%s] %d %d %d [%s] [%s])%%nat" % (
+        inner, "; ".join(str(r) for r in rs), "; ".join(str(x) for x in slots), "; ".join(deps), enc(mc), enc(mw),
+        len(case["calls"]), "; ".join(op_coq(o) for o in case["ops"]), "; ".join(picks))
+
+
+def impl_lines_d(case, res):
+    lines = impl_lines_x(case, res)
+    out = []
+    for ln in lines[:-1]:
+        parts = ln.split("|")
+        lab = parts[2].split(" ")
+        if lab[0] == "setexc":
+            lab[2] = "ValueError"
+        parts[2] = " ".join(lab)
+        out.append("|".join(parts))
+    fin = lines[-1]
+    ents = res["ents"]
+    if "R" in ents:
+        st, exc = ents["R"]
+        rs = "live" if st not in ("done", "killed") else ("dead" if exc else "done")
+    else:
+        rs = "none"
+    fin = fin.replace("|disp=", "|res=%s|disp=" % rs)
+    import re
+    fin = re.sub(r"exc:\w+", "exc:ValueError", fin)
+    out.append(fin)
+    return out
